@@ -634,6 +634,47 @@ def kind_tree_text(rng, d, vs):
     return f"({a}) {op} ({b})"
 
 
+# Arrangements the rules look for (read off their get_type functions and docs), with
+# holes X, Y, Z for arbitrary sub-expressions, T for natural-order terms, c for constants.
+RULE_SHAPES = [
+    "c * (c * X)", "(c * X) * c", "c + (c + X)", "c * ((c * X) * Y)", "c + ((c + X) + Y)",
+    "(cV * c)", "(c * X) * (c * Y)", "(c * X) * ((c * Y) * Z)", "(X * (c * Y)) * (c * Z)", "-(c + c)", "-(c * c)",
+    "c / c", "c - c", "c ^ c",
+    "T + T", "(X + T) + T", "T + (T + X)", "(X + T) + (T + Y)", "T + ((T + X) + Y)", "(X + (Y + T)) + T",
+    "T * T", "T * (T * X)", "(X * T) * T", "V * V", "V * (V * X)",
+    "X * (Y + Z)", "(Y + Z) * X", "T * (T + X)", "(X + Y) * (Z + T)",
+    "X / Y", "X / -Y", "X / (Y / Z)", "(X / Y) / Z", "(X / Y) * Z", "X * (Y / Z)",
+    "X - T", "X - -V", "X - -c", "X + -c", "X + -cV", "X + -cV^c", "X - (Y - Z)", "X - (c - Y)", "X - c^Y",
+    "(X + Y) + Z", "X + (Y + Z)", "(X * Y) * Z", "X * (Y * Z)", "X + Y", "X * Y",
+    "X + T = Y", "T + X = Y", "X = Y + T", "cV = X", "X = cV", "c * X = Y", "(X + T) * Y = Z", "-(X + T) = Y",
+    "(X + T) / Y = Z", "X - (T + Y) = Z", "(X + T)^c = Y", "X + (Y + T) = Z",
+]
+PRINT_CONTEXTS = ["V^-(S)", "-(S)", "(S)^c", "V - (S)", "V / (S)", "(S) / V", "(S) * V", "V * (S)", "-(S) * V",
+                  "V^(S)", "-(S)^c", "c(S)^c", "V^-(c(S)^c)", "V - -(S)", "(S) - (S)", "-(-(S))", "(S)!" ]
+
+
+def fill_shape(rng, shape, vs):
+    out = []
+    i = 0
+    while i < len(shape):
+        ch = shape[i]
+        if ch in "XYZS" and (i + 1 == len(shape) or not shape[i + 1].isalpha()):
+            sub = kind_tree_text(rng, rng.choice([0, 1, 1, 2]), vs)
+            out.append(sub if ch == "S" else "(" + sub + ")")
+        elif ch == "T":
+            out.append(rng.choice([rw_number(rng) + rng.choice(vs) + "^" + rw_exp(rng), rw_number(rng) + rng.choice(vs),
+                                   rng.choice(vs), rng.choice(vs) + "^" + rw_exp(rng), "-" + rng.choice(vs),
+                                   "-" + rng.choice(vs) + "^" + rw_exp(rng), rw_number(rng)]))
+        elif ch == "V":
+            out.append(rng.choice(vs))
+        elif ch == "c":
+            out.append(rw_number(rng))
+        else:
+            out.append(ch)
+        i += 1
+    return "".join(out)
+
+
 def planted_equation(rng, vs):
     """L = R with a solution planted by construction (exact arithmetic)."""
     from mathy_core.parser import ExpressionParser
@@ -701,27 +742,35 @@ class RewriteSim:
                              else rw_number(rng) for _ in range(rng.choice([1, 2, 3]))]
             _POOL["exps"] = [str(rng.randint(0, 4)) for _ in range(rng.choice([1, 2]))]
             cfg["literal_pool"] = [_POOL["nums"], _POOL["exps"]]
-        src = rng.random()
         planted = []
-        if prop == "C04" and src < 0.3:
+        if prop == "C04":
+            mix = [("kind-pairs", 22), ("parser-grammar", 18), ("rule-shapes", 14), ("print-contexts", 12),
+                   ("problems", 8), ("rule-tests", 6), ("planted-equation", 8), ("grammar", 12)]
+        else:
+            mix = [("rule-shapes", 14), ("kind-pairs", 10), ("problems", 16), ("rule-tests", 12),
+                   ("planted-equation", 22), ("grammar", 26)]
+        source = rng.choices([m[0] for m in mix], weights=[m[1] for m in mix])[0]
+        cfg["source"] = source
+        if source == "kind-pairs":
             text = kind_tree_text(rng, rng.choice([1, 2, 2, 3]), rng.choice(["xyz", "ab", "x"]))
-            if rng.random() < 0.2:
+            if rng.random() < 0.25:
                 text = text + " = " + kind_tree_text(rng, rng.choice([0, 1, 2]), "xyz")
-            cfg["source"] = "kind-pairs"
-        elif prop == "C04" and src < 0.55:
+        elif source == "parser-grammar":
             # trees "obtainable as parse(s) for any string s": the broad documented grammar
             g = {"depth": rng.choice([1, 2, 3, 4]), "floats": True, "fact": rng.random() < 0.6,
                  "sgn": rng.random() < 0.5, "brackets": rng.random() < 0.3, "endash": rng.random() < 0.2,
                  "upper": False, "space": rng.choice([0, 1, 2]), "eq": rng.random() < 0.5,
                  "vars": rng.choice(["xyz", "abc", "pqrs", "xy"]), "max_len": 200}
             text = gen.valid_text(rng, g) if rng.random() < 0.85 else rng.choice(gen.CORPUS)
-            cfg["source"] = "parser-grammar"
-        elif prop == "C09" and src < 0.12:
-            text = kind_tree_text(rng, rng.choice([1, 2, 2, 3]), rng.choice(["xyz", "ab", "x"]))
-            if rng.random() < 0.3:
-                text = text + " = " + kind_tree_text(rng, rng.choice([0, 1, 2]), "xyz")
-            cfg["source"] = "kind-pairs"
-        elif src < 0.25:
+        elif source == "print-contexts":
+            text = fill_shape(rng, rng.choice(PRINT_CONTEXTS), rng.choice(["xyz", "ab", "x", "fgq"]))
+        elif source == "rule-shapes":
+            vs = rng.choice(["xyz", "ab", "x", "fgq"])
+            text = fill_shape(rng, rng.choice(RULE_SHAPES), vs)
+            if rng.random() < 0.3 and "=" not in text:
+                text = fill_shape(rng, rng.choice(["(S) + V", "V * (S)", "(S) - c", "-(S)", "(S) / c"]).replace("S", "@"),
+                                  vs).replace("@", text)
+        elif source == "problems":
             from mathy_core import problems
             name, kw = rng.choice(PROBLEM_GENS)
             _random.seed(rng.randrange(2 ** 32))
@@ -732,7 +781,7 @@ class RewriteSim:
                 text = "4x + 2x"
             problems.use_pretty_numbers(True)
             cfg["source"] = "problems." + name
-        elif src < 0.4:
+        elif source == "rule-tests":
             inputs = rule_test_inputs()
             if inputs:
                 text, ctx = rng.choice(inputs)
@@ -740,16 +789,13 @@ class RewriteSim:
                     planted = [ctx]
             else:
                 text = "4x + 2x"
-            cfg["source"] = "rule-tests"
-        elif src < 0.65:
+        elif source == "planted-equation":
             vs = rng.choice(["x", "xy", "xyz", "ab", "tpq"])
             text, env = planted_equation(rng, vs)
             planted = [env]
-            cfg["source"] = "planted-equation"
         else:
             vs = rng.choice(["x", "xy", "xyz", "ab", "mnk"])
             text = rw_expr(rng, rng.randint(1, 3), vs)
-            cfg["source"] = "grammar"
         _POOL["nums"] = _POOL["exps"] = None
         cfg["start"] = text
         cfg["planted"] = planted
